@@ -2,8 +2,8 @@
    on the transcription of is_fungible.h: reflexivity, the documented pairs, the main
    theorem C09_wire (fungible schemas give the same bytes and the same size, and what
    A wrote reads back as B, for every value both can hold — outside the K3 corner),
-   and K3 itself.  Symmetry of the trait is decided on the implementation by the
-   full pairwise matrix (DESIGN.md).  Statements only; proofs in FungibleProps.v and
+   symmetry (C09_symmetric), and K3 itself.  The transcription is tied to the trait by the full
+   pairwise matrix (DESIGN.md).  Statements only; proofs in FungibleProps.v and
    FungibleWire.v. *)
 From Nop Require Import Spec Sim EncSpec ScalarRT DecSpec Fungible FungibleProps FungibleWire.
 Local Open Scope N_scope.
@@ -30,6 +30,11 @@ Example C09_wire_nonvacuous :
   let v := VSeq [VSeq [VInt 300; VSeq [VInt 104]]; VSeq [VInt (-1); VSeq []]] in
   fungible a b = true /\ k3free a = true /\ k3free b = true /\ has_type a v = true /\ has_type b v = true /\ wf b = true.
 Proof. vm_compute. repeat split; reflexivity. Qed.
+
+(* IsFungible<A,B> equals IsFungible<B,A>, for all schemas *)
+Theorem C09_symmetric : forall a b, fungible a b = fungible b a.
+Proof. exact fungible_sym. Qed.
+Print Assumptions C09_symmetric.
 
 Theorem C09_reflexive : forall t, fungible t t = true.
 Proof. exact fungible_refl. Qed.
